@@ -214,13 +214,13 @@ theorem final_sat (env : Env) (k : CK) (l : List Q) (boost : Rat) (d : Doc) :
   | a :: b :: rest => simp only [sat_comp]
 
 theorem compTail_or (env : Env) (k : CK) (hk : k ≠ .and) (l : List Q) (boost : Rat) (d : Doc)
-    (hp : d.Plain) : sat env (compTail k l boost) d = satAny env l d := by
+    (hp : d.BelowMax) (hl : LOk d l) : sat env (compTail k l boost) d = satAny env l d := by
   have hint : k.intersect = false := by cases k <;> simp_all [CK.intersect]
   have hden : ∀ l', den env k l' d = satAny env l' d := by
     intro l'; cases k <;> simp_all [den]
   unfold compTail
   simp only [hint]
-  have hm1 := mergeLoop_or env d hp [] l
+  have hm1 := mergeLoop_or env d hp [] l hl
   have hmef := mergeLoop_ef false [] l
   generalize mergeLoop false [] l = res at hm1 hmef ⊢
   obtain ⟨out, ef⟩ := res
@@ -276,8 +276,8 @@ theorem compTail_and (env : Env) (l : List Q) (boost : Rat) (d : Doc)
   | cons a as => simp
 
 /-- `CompoundQuery.normalize` on already normalized clauses. -/
-theorem compNormalize_sat (env : Env) (k : CK) (subs : List Q) (boost : Rat) (d : Doc) (hp : d.Plain)
-    (hnf : NFList subs = true)
+theorem compNormalize_sat (env : Env) (k : CK) (subs : List Q) (boost : Rat) (d : Doc) (hp : d.BelowMax)
+    (hl : LOk d (flatten k subs)) (hnf : NFList subs = true)
     (hclean : k = .and → nullMixOk (flatten k subs) = true ∧ everyFieldOk (flatten k subs) = true
       ∧ rangesApart (flatten k subs) = true) :
     sat env (compNormalize k subs boost) d = den env k subs d := by
@@ -289,7 +289,7 @@ theorem compNormalize_sat (env : Env) (k : CK) (subs : List Q) (boost : Rat) (d 
   have hnfl := flatten_NF k subs hnf
   rw [← hflat]
   unfold compNormalize
-  generalize flatten k subs = l at hclean hnfl ⊢
+  generalize flatten k subs = l at hclean hnfl hl ⊢
   simp only
   -- all clauses Null
   by_cases hall : l.all Q.isNull = true
@@ -395,7 +395,7 @@ theorem compNormalize_sat (env : Env) (k : CK) (subs : List Q) (boost : Rat) (d 
         rcases hw with hw | hw
         · simp at hw
         · exact hE' s hs f hf hw
-    · rw [compTail_or env _ (by decide) l boost d hp]; rfl
-    · rw [compTail_or env _ (by decide) l boost d hp]; rfl
+    · rw [compTail_or env _ (by decide) l boost d hp hl]; rfl
+    · rw [compTail_or env _ (by decide) l boost d hp hl]; rfl
 
 end WM.Normalize
